@@ -217,6 +217,7 @@ def run(prog: Program, ctx: Ctx) -> None:  # noqa: PLR0912,PLR0915
         f = prog.lookup_method(ea, attr)[0]
         ctx.ob("R5", key(f, "last-segment"), f"return self.last.{attr}" in ast.unparse(f.node), f"ExprAttribute.{attr} is its last segment's {attr} (resolved through the chain)", where(f))
 
-    from sa.importrules import import_rules
+    from sa.importrules import import_rules, importfrom_table
 
     import_rules(prog, ctx, "R6")
+    importfrom_table(prog, ctx, "R7")
